@@ -277,7 +277,7 @@ theorem expected_scaffolds_deep_n_def (input ptx : List Scaffold) (jg : Gap) :
            rank := 3, originalName := some g.1.name, originalTags := some [] } : Scaffold)) ++
       (input.filterMap (leftoverEntry (claimedKeys input ptx) jg)).map (·.1) := rfl
 
-/-- a `DeepCut` map is a `DeepCutN` map? — the converse inclusion is immediate: chains of length two -/
+/-- the number of (piece, shared contig) incidences -/
 theorem incidences_n_def (input ptx : List Scaffold) :
     incidencesN input ptx = ((sharedKeys input ptx).map (fun k => (holdersOf input ptx k).length)).sum := rfl
 
@@ -329,7 +329,7 @@ theorem cut_piece_is_contiguous_run (input ptx : List Scaffold) (jg : Gap) (g : 
 
 /-! ## the ingredient for more than one cut per contig -/
 
-/-- **`cut_fragments` for a contig with ANY number of holders** (mechanism; not yet used end-to-end, see the header).
+/-- **`cut_fragments` for a contig with ANY number of holders** (the mechanism behind `deep_map_rearranges`).
     `T` lists, in visiting order, each holder's id, the result and the new Fragment `trim_fragment` makes of it.  If
     * the ids arranged like that are a permutation of the registered holder list with strictly increasing
       `fragment_start_if_trimmed` (so this IS the visiting order),
@@ -483,7 +483,7 @@ example : ∀ sc ∈ inpN, ∀ f ∈ sc.fragments, f.strand = 1 ∨ f.strand = -
 
 /-- the chains: a1 is held by the pieces 5 (1..30), 0 (31..70), 4 (71..150) in scaffold order -/
 example : (sitesN inpN ptxN).map (fun x => (x.frag.name, x.chain)) =
-    [(b2.name, [3, 1]), (a2.name, [4, 2]), (a1.name, [5, 0, 4])] := by decide +kernel
+    [(b2.name, [3, 1]), (a1.name, [5, 0, 4]), (a2.name, [4, 2])] := by decide +kernel
 
 /-- `remap`, evaluated by the kernel independently of the theorems, returns the specified output; 4 cuts
     = 7 incidences − 3 shared contigs -/
